@@ -17,8 +17,21 @@ def S(stream, quick, thorough, **kw):
     return d
 
 PROPS = {
+    "C12": {
+        "file": "C12.v",
+        "streams": [S("ht", 400, 6000)],
+        "claim": "Theorems over HtableModel (a statement-by-statement model of htable.go in its under-the-lock view): for every hash function (so identical, colliding and sentinel-valued hashes are inside the quantifier), every table size and growth point and every protocol-respecting sequence of store / lookup / probe-then-publish / probe-then-abandon / replace / removeExact / clear with removals between probe and publish, the table refines an abstract map at every step, lookups terminate within one pass, resident keys are never lost, removed keys never resurrected, and the live counter equals the contents. Tied to /repo by T-trace on the real htable through VerifHtable plus a reference-map monitor. The clause about lookups running concurrently with the writer is decided by the lock-step/stress streams (see C02/C11) and is stated as partial here.",
+        "note": "Trusted: Coq kernel, extraction, driver, harness, VerifHtable wrapper. Pointer identity is modelled by a fresh iid per item object. Concurrent readers: not covered by these theorems.",
+        "assumptions": [
+            "operations follow the calling protocol of the cache (between a missed probe and its publish/unpin only removals and clear happen; store/probe are not issued while a cursor is parked)",
+            "every item passed in carries hash = hashf(key) for one fixed but arbitrary hashf (C18 covers the hashers)",
+        ],
+        "trusted": ["Modelled, not verified: atomic tag/item stores are collapsed into one cell update (sequential view)"],
+    },
     "C19": {
         "file": "C19.v",
+        "claim": "Theorems over EstimatorModel (bit-exact Avalanche, doorkeeper words, packed 4-bit counters): lower bound min(count,15) <= estimate <= 15 between aging events for every recording sequence and sketch size, monotonicity, exact halving on aging, indices in range; nibble arithmetic proved for every 64-bit word. Ghost lists: executable GhostModel tied by correspondence plus FIFO-window monitor (refinement proof pending, stated as partial).",
+        "note": "Trusted: Coq kernel, extraction, driver, harness, VerifEstimator/VerifGhost wrappers. The ghost clause is conformance-level for now.",
         "streams": [S("est", 60, 800), S("ghost", 150, 3000)],
         "assumptions": [
             "fingerprints enter through keyhash.Avalanche, modelled bit-exactly (64-bit wrap explicit) and compared on every trace",
@@ -29,6 +42,8 @@ PROPS = {
     },
     "C16": {
         "file": "C16.v",
+        "claim": "Machine-checked theorems over ConfigModel (Validate, shard-count rounding with Go's 64-bit wrap, per-shard budget split, Sieve segment sizing, defaults) for all configurations and CPU counts; the model is tied to /repo by T-gen (constants regenerated every run) and by a correspondence run of Validate/New against the extracted model on boundary and random configurations.",
+        "note": "Trusted: Coq kernel, extraction (ExtrOcamlBasic only), OCaml driver, Go harness and hooks. Theorems assume ShardCount <= 2^62; above it the full statement is refuted (known finding F9). Allocation itself is not modelled.",
         "streams": [S("cfg", 400, 6000)],
         "assumptions": [
             "ShardCount <= 2^62 in the shard-count theorems (above it the rounding wraps: c16_new_total_refuted, known finding F9)",
@@ -38,3 +53,8 @@ PROPS = {
         "trusted": ["Modelled, not verified: make()/allocation behaviour of New; goroutine start-up"],
     },
 }
+
+# properties not claimed yet, with the reason shown in MANIFEST.not_applicable
+NOT_YET = {
+}
+ALL_IDS = ["C%02d" % i for i in range(1, 21)]
